@@ -176,6 +176,24 @@ def r3_both_ends_checked(ctx: Ctx) -> None:
     for expr, what in want.items():
         ctx.count("none_checks")
         ctx.check(expr in checked, f"RelativeJumpOpcode.emit:{what}-in-rom", f"`{expr} is None` must raise before the displacement is packed (a RAM {what} has no file offset); checked: {sorted(checked)}")
+    # rejection census: what else makes emit refuse a branch.  Known: no operand; a RAM end (above); struct.error re-raised.
+    from ..match import inline, last_assignments
+
+    lenv = last_assignments(fn.node)
+    for r in [x for x in walk_no_nested(fn.node) if isinstance(x, ast.Raise) and x.exc is not None]:
+        conds = g.path_conditions(g.node_of(r), fn.node)
+        extra = [(t, pol) for t, pol in conds if not (all(d.strip().endswith(" is None") for d in t.split(" or ")) or "isinstance(" in t)]
+        for t, pol in extra:
+            tree = ast.parse(t, mode="eval").body
+            banks = [x for x in ast.walk(tree) if isinstance(x, ast.BinOp) and isinstance(x.op, ast.RShift) and unparse(x.right) == "16"]
+            if isinstance(tree, ast.Compare) and len(banks) == 2 and isinstance(tree.ops[0], (ast.NotEq, ast.Eq)):
+                sides = sorted(unparse(inline(b.left, lenv)) for b in banks)
+                own = [x for x in sides if "reloc_address" in x]
+                if own and ("+" in own[0] or "-" in own[0] or "supposed_length" in own[0]):
+                    ctx.fail(f"RelativeJumpOpcode.emit:raise under `{t[:60]}`", f"the same-bank test uses `{own[0]}`, not the branch's own run address: a branch in the last bytes of a bank, "
+                             "whose target is in that bank, is refused although the property requires it to be encoded")
+                    continue
+            raise AnalysisError(f"RelativeJumpOpcode.emit: an additional rejection under `{t[:70]}`; whether it refuses branches that must be encoded is not decided")
     table = extract_table(ctx)
     rel = [k for k in table if k[3] == "rel"]
     for k in rel:
